@@ -198,9 +198,9 @@ Definition enc_cud (c : cud) : bytes :=
   enc_row (c_row c) ++ be 2 (nlen (c_emptied c)) ++ flat_map (be 2) (c_emptied c).
 
 (* WriteShortString: strings of maxLen bytes or more are cut to maxLen *)
-Definition enc_str (s : bytes) : bytes :=
-  let s' := if nlen s <? c02_short_string_max then s else firstn (N.to_nat c02_short_string_max) s in
-  be 2 (nlen s') ++ s'.
+Definition cut_str (s : bytes) : bytes :=
+  if nlen s <? c02_short_string_max then s else firstn (N.to_nat c02_short_string_max) s.
+Definition enc_str (s : bytes) : bytes := be 2 (nlen (cut_str s)) ++ cut_str s.
 
 Definition stored_valid (e : event) : bool := e_valid e && negb (e_qid e =? c02_qid_corrupted).
 
@@ -301,12 +301,31 @@ Definition decode (s : schema) (b : bytes) : option event :=
 
 Definition proper_prefix (p b : bytes) : Prop := exists ext, ext <> [] /\ b = p ++ ext.
 
-(* what the log keeps of an event: the activation flags of CUD rows are not stored *)
+(* what the log keeps of an event.  Valid event: everything but the activation flags of CUD rows.
+   Event that is not valid (build error, sys.Corrupted): only the error record - message and original
+   name cut to 65535 bytes, original bytes unless the command has an unlogged argument; the
+   builder's argument objects and CUD rows are not stored. *)
 Definition clear_cud (c : cud) : cud := mkCud (c_row c) (c_emptied c) false.
 Definition stored_form (e : event) : event :=
-  mkEvent (e_qid e) (e_part e) (e_poffs e) (e_ws e) (e_woffs e) (e_reg e) (e_sync e) (e_dev e) (e_syncat e)
-          (e_valid e) (e_errstr e) (e_errname e) (e_errbytes e) (e_arg e) (e_unl e)
-          (map clear_cud (e_creates e)) (map clear_cud (e_updates e)).
+  if stored_valid e then
+    mkEvent (e_qid e) (e_part e) (e_poffs e) (e_ws e) (e_woffs e) (e_reg e) (e_sync e) (e_dev e) (e_syncat e)
+            (e_valid e) (e_errstr e) (e_errname e) (e_errbytes e) (e_arg e) (e_unl e)
+            (map clear_cud (e_creates e)) (map clear_cud (e_updates e))
+  else
+    mkEvent (e_qid e) (e_part e) (e_poffs e) (e_ws e) (e_woffs e) (e_reg e) (e_sync e) (e_dev e) (e_syncat e)
+            (e_valid e) (cut_str (e_errstr e)) (cut_str (e_errname e))
+            (if r_qid (root (e_unl e)) =? 0 then e_errbytes e else []) null_obj null_obj [] [].
+
+(* storeToBytes of an event that was decoded without keeping its bytes (range reads): for an event
+   that is not valid storeEventBuildError writes the event's own name, which after decoding is
+   sys.Error / sys.Corrupted, in place of the original name (c02_reencode_orig_name = false) *)
+Definition reenc_name (e : event) : bytes :=
+  if c02_reencode_orig_name then e_errname e
+  else if e_qid e =? c02_qid_corrupted then c02_name_corrupted else c02_name_error.
+Definition reencode (e : event) : bytes :=
+  enc_event (if stored_valid e then e else
+    mkEvent (e_qid e) (e_part e) (e_poffs e) (e_ws e) (e_woffs e) (e_reg e) (e_sync e) (e_dev e) (e_syncat e)
+            (e_valid e) (e_errstr e) (reenc_name e) (e_errbytes e) (e_arg e) (e_unl e) (e_creates e) (e_updates e)).
 
 (* ================= C. trace checking ================= *)
 
@@ -369,46 +388,69 @@ Definition accepted_prefixes (raw : bytes) : list N :=
   filter (fun n => is_some (decode sch_any (firstn (N.to_nat n) raw))) (map N.of_nat (seq 0 (length raw))).
 
 Inductive lop :=
-(* res: 0 stored, 1 refused (sequence violation) *)
-| LPut (wlog : bool) (id off : N) (corrupted : bool) (dig : N) (res : N)
+(* dig: digest of the accessor dump of the event PutPlog returned; dstored: digest of the dump of
+   its stored form (differs only for an invalid event that carries argument objects / CUD rows or
+   an error text of 65535 bytes or more); res: 0 stored, 1 refused (sequence violation) *)
+| LPut (wlog : bool) (id off : N) (corrupted : bool) (dig dstored : N) (res : N)
+(* a new app-structs instance over the same storage: the PLog event cache starts empty *)
+| LRestart
 (* got: (offset, digest of the delivered event's accessor dump) in callback order; err: 0 = nil *)
 | LRead (wlog : bool) (id off : N) (count : Z) (got : list (N * N)) (err : N).
 
 Inductive trace :=
-| TLog (ops : list lop)
+(* cache_on: PLog event cache in use (the scenarios stay below its capacity: no eviction) *)
+| TLog (cache_on : bool) (ops : list lop)
 (* one event: the row stored in the log, the accessor dumps (payloads empty) of the event PutPlog
    returned and of the event read back, their content digests, whether the callback got the
-   requested offset, the prefix lengths the real decoder accepted, and single-byte mutations
-   (position, new byte, accepted by the real decoder); masks = kind masks of the schema's types *)
+   requested offset, the prefix lengths the real decoder accepted, single-byte mutations
+   (position, new byte, accepted by the real decoder); masks = kind masks of the schema's types;
+   reraw / dreput: the WLog row written by PutWlog of the event read back with a range read (no
+   kept bytes: re-encoded) into a second storage, and the digest of that row's read-back *)
 | TCodec (masks : list (N * N)) (raw : bytes) (put_dump read_dump : event) (dput dread : N) (off_ok : bool)
-         (accepted : list N) (muts : list (N * N * bool)).
+         (accepted : list N) (muts : list (N * N * bool)) (reraw : bytes) (dreput : N).
 
 Definition pair_eqb (a b : N * N) : bool := (fst a =? fst b) && (snd a =? snd b).
 
-Fixpoint agrees_log (st : lstore N) (ops : list lop) : bool :=
+(* the PLog event cache: (partition, offset) -> digest of the event object PutPlog returned *)
+Fixpoint pc_get (k : N * N) (pc : list (N * N * N)) : option N :=
+  match pc with
+  | [] => None
+  | (k', d) :: r => if pair_eqb k k' then Some d else pc_get k r
+  end.
+
+Fixpoint agrees_log (cache_on : bool) (pc : list (N * N * N)) (st : lstore N) (ops : list lop) : bool :=
   match ops with
   | [] => true
-  | LPut wlog id off corrupted dig res :: rest =>
-      let '(st', ok) := log_put corrupted st wlog id off dig in
-      (res =? (if ok then 0 else 1)) && agrees_log st' rest
+  | LPut wlog id off corrupted dig dst res :: rest =>
+      let '(st', ok) := log_put corrupted st wlog id off dst in
+      (res =? (if ok then 0 else 1))
+      && agrees_log cache_on (if cache_on && negb wlog && ok then ((id, off), dig) :: pc else pc) st' rest
+  | LRestart :: rest => agrees_log cache_on [] st rest
   | LRead wlog id off count got err :: rest =>
-      (err =? 0) && list_eqb pair_eqb (read_log c02_last_part_guard st wlog id off count) got && agrees_log st rest
+      let from_storage := read_log c02_last_part_guard st wlog id off count in
+      (* ReadPLog(…, 1) looks into the PLog event cache first *)
+      let model := if negb wlog && (count =? 1)%Z then
+                     match pc_get (id, off) pc with Some d => [(off, d)] | None => from_storage end
+                   else from_storage in
+      (err =? 0) && list_eqb pair_eqb model got && agrees_log cache_on pc st rest
   end.
 
 Definition agrees (t : trace) : bool :=
   match t with
-  | TLog ops => agrees_log [] ops
-  | TCodec masks raw pd rd _ _ off_ok accepted muts =>
+  | TLog cache_on ops => agrees_log cache_on [] [] ops
+  | TCodec masks raw pd rd _ _ off_ok accepted muts reraw _ =>
       match decode sch_any raw with
       | None => false
       | Some e =>
           (* the stored row decodes to what the code read back and re-encodes to itself; what was
-             read back is the stored form of what was appended; the callback got the offset *)
+             read back is the stored form of what was appended; the callback got the offset;
+             re-encoding the decoded event gives the re-put row *)
           event_eqb (strip e) rd && lex_eqb (enc_event e) raw
           && event_eqb (stored_form pd) rd && off_ok
           && list_eqb N.eqb (accepted_prefixes raw) accepted
           && forallb (fun m => let '(pos, x, acc) := m in
                                if is_some (decode (sch_masks masks) (set_nth (N.to_nat pos) x raw)) then true else negb acc) muts
+          && lex_eqb (reencode e) reraw
       end
   end.
 
@@ -442,7 +484,8 @@ Definition expected (l : list (N * N)) (off : N) (count : Z) : list (N * N) :=
 Fixpoint satisfies_log (ls : list (bool * N * list (N * N))) (ops : list lop) : bool :=
   match ops with
   | [] => true
-  | LPut wlog id off _ dig res :: rest =>
+  | LRestart :: rest => satisfies_log ls rest
+  | LPut wlog id off _ dig _ res :: rest =>
       satisfies_log (if res =? 0 then olog_set (wlog, id) (olog_ins off dig (olog_get (wlog, id) ls)) ls else ls) rest
   | LRead wlog id off count got err :: rest =>
       (err =? 0) && list_eqb pair_eqb (expected (olog_get (wlog, id) ls) off count) got && satisfies_log ls rest
@@ -450,7 +493,9 @@ Fixpoint satisfies_log (ls : list (bool * N * list (N * N))) (ops : list lop) : 
 
 Definition satisfies (t : trace) : bool :=
   match t with
-  | TLog ops => satisfies_log [] ops
-  | TCodec _ _ pd rd dput dread off_ok accepted _ =>
+  | TLog _ ops => satisfies_log [] ops
+  | TCodec _ _ pd rd dput dread off_ok accepted _ _ dreput =>
+      (* read back = appended; appending what was read back and reading that gives the same again *)
       (dput =? dread) && event_eqb pd rd && off_ok && match accepted with [] => true | _ => false end
+      && (dreput =? dread)
   end.
